@@ -127,7 +127,11 @@ def _use_second_input(rng, prog):
 
 def make_run(focus, seed):
     rng = random.Random('%s:%d' % (focus, seed))
-    mode = wchoice(rng, [('clean', 0.4), ('natural', 0.15), ('inject', 0.45)])
+    if focus == 'C06':
+        # the property that is about what earlier (possibly failed) calls leave behind
+        mode = wchoice(rng, [('clean', 0.3), ('natural', 0.1), ('inject', 0.6)])
+    else:
+        mode = wchoice(rng, [('clean', 0.4), ('natural', 0.15), ('inject', 0.45)])
     if focus == 'C05':
         K = wchoice(rng, [(1, 2), (2, 4), (3, 3)])
     else:
@@ -141,7 +145,7 @@ def make_run(focus, seed):
         if not fault_kinds:
             fault_kinds = [rng.choice(['node_fwd', 'node_rev', 'line'])]
     p_arm = rng.choice([0.1, 0.15, 0.25])
-    max_faults = rng.randint(1, 4)
+    max_faults = rng.randint(1, 6 if focus == 'C06' else 4)
 
     def jitter(w):
         return w * rng.choice([0.0, 0.5, 1.0, 1.0, 2.0])
